@@ -443,19 +443,43 @@ type c37Out struct {
 	reads         int
 	class, detail string
 	allocMiB      int64
+	hung          bool // a call never returned: its goroutine is still spinning
 }
 
-var c37AllocSample = []metrics.Sample{{Name: "/gc/heap/allocs:bytes"}}
-
 func c37Allocs() uint64 {
-	metrics.Read(c37AllocSample)
-	if c37AllocSample[0].Value.Kind() == metrics.KindUint64 {
-		return c37AllocSample[0].Value.Uint64()
+	sample := []metrics.Sample{{Name: "/gc/heap/allocs:bytes"}} // (own sample: called from the watchdog too)
+	metrics.Read(sample)
+	if sample[0].Value.Kind() == metrics.KindUint64 {
+		return sample[0].Value.Uint64()
 	}
 	return 0
 }
 
-func c37Drive(reader string, data []byte, seed uint64, plain bool, faultAt int) (o *c37Out) {
+// c37Drive runs one reader over one stream and gives the whole thing (constructor included) 8 s
+// of real time.
+func c37Drive(reader string, data []byte, seed uint64, plain bool, faultAt int) *c37Out {
+	ch := make(chan *c37Out, 1)
+	al0 := c37Allocs()
+	go func() { ch <- c37DriveInner(reader, data, seed, plain, faultAt) }()
+	for waited := 0; ; waited += 8 {
+		select {
+		case o := <-ch:
+			return o
+		case <-time.After(8 * time.Second):
+		}
+		if al := c37Allocs(); al-al0 >= 256<<20 && waited < 600 {
+			al0 = al // still allocating by the hundred megabytes: slow, not stuck
+			continue
+		}
+		break
+	}
+	{
+		return &c37Out{reader: reader, end: "hang", hung: true, class: "reader-call-never-returned:" + reader,
+			detail: fmt.Sprintf("constructing the reader and driving it over a %d-byte stream had not finished after 8 s of real time", len(data))}
+	}
+}
+
+func c37DriveInner(reader string, data []byte, seed uint64, plain bool, faultAt int) (o *c37Out) {
 	o = &c37Out{reader: reader, end: "done"}
 	sim := &c37Sim{data: data, seed: seed, plain: plain, faultAt: faultAt, zeroDone: map[int]bool{}, budget: len(data) + 16}
 	limit := len(data) + 2
@@ -496,9 +520,59 @@ func c37Drive(reader string, data []byte, seed uint64, plain bool, faultAt int) 
 		}
 	}
 	// loop drives next() until it stops reporting success
-	loop := func(next func() (bool, error)) {
+	loop := func(next0 func() (bool, error)) {
+		// every call gets 3 s of real time: a reader that loops without ever calling Read again
+		// cannot be noticed through the simulated source
+		next := func() (got bool, err error) {
+			type ret struct {
+				got  bool
+				err  error
+				pan  any
+				done bool
+			}
+			ch := make(chan ret, 1)
+			go func() {
+				defer func() {
+					if r := recover(); r != nil {
+						ch <- ret{pan: r, done: true}
+					}
+				}()
+				g, e := next0()
+				ch <- ret{got: g, err: e, done: true}
+			}()
+			al0 := c37Allocs()
+			var r ret
+			select {
+			case r = <-ch:
+			case <-time.After(3 * time.Second):
+				if c37Allocs()-al0 < 256<<20 {
+					break
+				}
+				// not spinning: busy with an allocation of hundreds of megabytes (a length field of
+				// a corrupt header taken at face value), which is slow, not endless
+				select {
+				case r = <-ch:
+				case <-time.After(180 * time.Second):
+				}
+			}
+			switch {
+			case r.pan != nil:
+				panic(r.pan)
+			case r.done:
+				return r.got, r.err
+			default:
+				o.class = "reader-call-never-returned:" + reader
+				o.detail = fmt.Sprintf("a call had not returned after 3 s of real time on a %d-byte stream; the source had been asked %d times by then (position %d)", len(data), sim.calls, sim.pos)
+				o.end = "hang"
+				o.hung = true
+				return false, nil
+			}
+		}
 		for {
 			got, err := next()
+			if o.hung {
+				return
+			}
 			if err != nil || !got {
 				endWith(err)
 				return
@@ -811,6 +885,9 @@ func c37Run(t *testing.T, cj []byte, res *vfResult) {
 		if o.class != "" {
 			res.violate(o.class, what+": "+o.detail)
 		}
+		if o.hung {
+			res.restart = true
+		}
 	}
 	switch c.Mode {
 	case "truncate":
@@ -831,13 +908,19 @@ func c37Run(t *testing.T, cj []byte, res *vfResult) {
 			s, off := c37Pair(i)
 			data := s.data[:off]
 			for _, rd := range c37Readers(s.kind, false) {
+				if res.restart {
+					break
+				}
 				what := fmt.Sprintf("%s[:%d]", s.name, off)
 				record(what+" plain", c37Drive(rd, data, 0, true, -1))
-				if s.kind != "opushead" && s.kind != "opustags" {
+				if s.kind != "opushead" && s.kind != "opustags" && !res.restart {
 					record(what+" chunked", c37Drive(rd, data, vfMix(c.ChunkSeed+uint64(i)), false, -1))
 				}
 			}
 			res.stat("truncation_pairs_covered", 1)
+			if res.restart {
+				break
+			}
 		}
 		if progressed {
 			res.Nontrivial = fmt.Sprintf("truncate:%d-%d", c.From, c.To)
@@ -863,6 +946,9 @@ func c37Run(t *testing.T, cj []byte, res *vfResult) {
 		}
 		what := fmt.Sprintf("%s+%dmut(%dB)", s.name, len(c.Muts), len(data))
 		for _, rd := range c37Readers(s.kind, c.AllReaders) {
+			if res.restart {
+				break
+			}
 			record(what, c37Drive(rd, data, c.ChunkSeed, false, c.FaultAt))
 		}
 		if progressed {
